@@ -107,7 +107,7 @@ func main() {
 		res, reusable := props.Execute(props.RunSpec{Prop: *prop, Tier: *tier, Seed: *seed, Index: i, Race: race, Keep: keep})
 		raced := checkRace(res)
 		if res.OK && !keep {
-			res.Gen, res.Sched = nil, nil
+			res.Gen, res.Sched, res.Blocks = nil, nil, nil
 		}
 		emit(res)
 		if !reusable || raced {
